@@ -38,14 +38,13 @@ pub open spec fn bfs_prefix<T: Eq + PartialOrd + Send + Sync, A: Clone>(g: Graph
     &&& forall|x: T| #[trigger] rv.contains(x) ==> g.knows(x)
 }
 
+
 impl<T, A> Graph<T, A>
 where
     T: Eq + Clone + PartialOrd + Ord + Hash + Send + Sync + Display,
     A: Clone,
 {
 //@ extract fn src/graph/query.rs breadth_first_search props=C10,C20 ty=Graph
-//@ head
-    #[verifier::exec_allows_no_decreases_clause]
 //@ rewrite
 -> Vec<T>
 //@ with
@@ -66,6 +65,7 @@ vsingleton_set(node_name.clone());
 for v in this_level
 //@ with
 let ghost tlset = this_level@;
+            let ghost rvs = return_vec@;
             let tlv = vset_into_vec(this_level);
             let ghost tl = tlv@;
             proof {
@@ -145,11 +145,15 @@ vset_union2(&next_level, &next);
             forall|x: T| #[trigger] next_level@.contains(x) ==> justified(*self, *node_name, return_vec@, x),
             // [C10.bfs.nothing_reachable_is_dropped]
             forall|a: T, x: T| return_vec@.contains(a) && #[trigger] steps_to(*self, a, x) ==> return_vec@.contains(x) || next_level@.contains(x),
+            return_vec@.len() <= self.n(),
+        // [C20.bfs.terminates] a round lists a new node (there are at most n) or leaves the next level empty
+        decreases self.n() - return_vec@.len(), (if next_level@.len() > 0 { 1int } else { 0int }),
 //@ loop 2
                 invariant
                     self.wf_nodes(), self.wf_rows(), self.wf_index_members(),
                     self.knows(*node_name),
                     tl == tlv@ && tl.no_duplicates(),
+                    return_vec@.len() >= rvs.len(), return_vec@.len() == rvs.len() ==> next_level@.len() == 0,
                     forall|x: T| #![trigger seen@.contains(x)] #![trigger return_vec@.contains(x)] seen@.contains(x) <==> return_vec@.contains(x),
                     bfs_prefix(*self, *node_name, return_vec@),
                     return_vec@.len() == 0 ==> tl.len() == 1 && itv.index@ == 0,
@@ -157,6 +161,8 @@ vset_union2(&next_level, &next);
                     forall|x: T| #[trigger] next_level@.contains(x) ==> justified(*self, *node_name, return_vec@, x) && return_vec@.len() > 0,
                     forall|a: T, x: T| return_vec@.contains(a) && #[trigger] steps_to(*self, a, x) ==>
                         return_vec@.contains(x) || next_level@.contains(x) || exists|k: int| itv.index@ <= k < tl.len() && #[trigger] tl[k] == x,
+//@ bodyend 1
+            proof { lemma_distinct_known_len(*self, return_vec@); }
 //@ before if !seen.contains(&v) {
                 let ghost vname = v;
                 let ghost rv0 = return_vec@;
